@@ -72,3 +72,53 @@ Theorem C08_nx_nz_identity : forall e o img max_size,
   optimize_raw e o img max_size = Ok None.
 Proof. exact nothing_enabled_nothing_done. Qed.
 Print Assumptions C08_nx_nz_identity.
+
+(* ================================================================ down to the header that is written, and the in-memory call *)
+From OxiVerif Require Import Model.Headers Model.PngData Model.Evaluate Proofs.ChunkProofs Proofs.ContainerOk Proofs.SwitchesFile.
+
+(* optimize_png_data = what `output` serialises (its header becomes the IHDR of the file). The options actually used are the
+   pre-processed ones (an animation or colour-space metadata switch further transformations off, never on) *)
+Theorem C08_written_bit_depth : forall e o p p', optimize_png_data e p o = Ok p' ->
+  bit_depth_reduction o = false -> depth (hdr (raw p')) = depth (hdr (raw p)).
+Proof. exact data_bit_depth. Qed.
+Print Assumptions C08_written_bit_depth.
+
+Theorem C08_written_color_type : forall e o p p', optimize_png_data e p o = Ok p' ->
+  color_type_reduction o = false -> png_header_code (ctype (hdr (raw p'))) = png_header_code (ctype (hdr (raw p))).
+Proof. exact data_color_type. Qed.
+Print Assumptions C08_written_color_type.
+
+Theorem C08_written_grayscale : forall e o p p', optimize_png_data e p o = Ok p' ->
+  grayscale_reduction o = false -> is_gray (ctype (hdr (raw p'))) = is_gray (ctype (hdr (raw p))).
+Proof. exact data_grayscale. Qed.
+Print Assumptions C08_written_grayscale.
+
+Theorem C08_written_keep_interlace : forall e o p p', optimize_png_data e p o = Ok p' ->
+  interlace o = None -> interlaced (hdr (raw p')) = interlaced (hdr (raw p)).
+Proof. exact data_keep_interlace. Qed.
+Print Assumptions C08_written_keep_interlace.
+
+(* a requested mode is the mode of whatever is emitted for a still image; a kept animation never changes its interlacing (C10) *)
+Theorem C08_written_requested_interlace : forall e o p p', optimize_png_data e p o = Ok p' ->
+  forall m, interlace o = Some m -> has_chunk name_acTL (aux_chunks p) = false ->
+  raw p' = raw p \/ interlaced (hdr (raw p')) = m.
+Proof. exact data_requested_interlace. Qed.
+Print Assumptions C08_written_requested_interlace.
+
+Theorem C08_animation_keeps_interlace : forall e o p p', optimize_png_data e p o = Ok p' ->
+  has_chunk name_acTL (aux_chunks p) = true -> interlaced (hdr (raw p')) = interlaced (hdr (raw p)).
+Proof. exact data_animation_keeps_interlace. Qed.
+Print Assumptions C08_animation_keeps_interlace.
+
+(* THE IN-MEMORY CALL: the input back, or the serialisation of a PngData for which every switch is binding *)
+Theorem C08_memory_call : forall e o bytes out, optimize_from_memory e o bytes = Ok out ->
+  out = bytes \/
+  exists p p', from_slice e bytes o = Ok p /\ out = output p' /\
+    (bit_depth_reduction o = false -> depth (hdr (raw p')) = depth (hdr (raw p))) /\
+    (color_type_reduction o = false -> png_header_code (ctype (hdr (raw p'))) = png_header_code (ctype (hdr (raw p)))) /\
+    (grayscale_reduction o = false -> is_gray (ctype (hdr (raw p'))) = is_gray (ctype (hdr (raw p)))) /\
+    (interlace o = None -> interlaced (hdr (raw p')) = interlaced (hdr (raw p))) /\
+    (forall m, interlace o = Some m -> has_chunk name_acTL (aux_chunks p) = false -> raw p' = raw p \/ interlaced (hdr (raw p')) = m) /\
+    width (hdr (raw p')) = width (hdr (raw p)) /\ height (hdr (raw p')) = height (hdr (raw p)).
+Proof. exact memory_switches_binding. Qed.
+Print Assumptions C08_memory_call.
